@@ -25,7 +25,7 @@ GAP   == 255
 MATCH == 1
 DEL   == 2
 INS   == 3
-NEG   == -100000000          \* minus infinity of the three-state recurrence
+NEG   == -1000000000         \* minus infinity of the three-state recurrence (recorded scores are below 4 * 10^8 in magnitude)
 
 Max2(x, y)    == IF x >= y THEN x ELSE y
 Max3(x, y, z) == Max2(x, Max2(y, z))
